@@ -90,6 +90,15 @@ def class_set_attributes(cnode):
                             v.args[0], ast.Name) and v.args[0].id in (
                             'set', 'frozenset'):
                         out.add(t.attr + '[]')
+                    if isinstance(v, ast.Dict) and v.values and all(
+                            is_set_expr(x) for x in v.values):
+                        out.add(t.attr + '[]')
+                # self.x[k] = set()
+                if isinstance(t, ast.Subscript) and isinstance(
+                        t.value, ast.Attribute) and isinstance(
+                        t.value.value, ast.Name) and \
+                        t.value.value.id == 'self' and is_set_expr(n.value):
+                    out.add(t.value.attr + '[]')
     return out
 
 
